@@ -35,8 +35,8 @@ ASSUMPTIONS = ['"distinct failure reply" = equal (code, message) as compared '
                'by Reply.__eq__, per failure event (one attempt or one retry '
                'exhaustion)']
 CELL_BUDGET_S = {'quick': 200, 'thorough': 2400}
-SAMPLE_P = 0.003
-MAX_WITNESSES = 3
+SAMPLE_P = 0.02
+MAX_WITNESSES = 6
 OPTS = ['ok', 'permA', 'permB', 'tempA', 'tempB']
 
 
